@@ -101,8 +101,9 @@ ApplyOK(in, st, out) ==
     /\ \A i \in 1..Len(in) :
          IF IsNl(in[i]) THEN out[i] = NlCell
          ELSE \/ out[i] = [in[i] EXCEPT !.s = <<st>> \o @, !.r = TRUE]
-              \* a style that is already the cell's outermost one need not be repeated
-              \/ (in[i].s # <<>> /\ in[i].s[1] = st /\ out[i] = [in[i] EXCEPT !.r = TRUE])
+              \* a style the cell already carries need not be repeated: attributes are idempotent and an
+              \* inner colour overrides an outer one, so what the terminal shows is the same (Term.tla)
+              \/ (st \in Range(in[i].s) /\ out[i] = [in[i] EXCEPT !.r = TRUE])
 
 \* ------------------------------------------------------------------ Requirement (C16)
 (* vertical centring works on lines; here a "text" is a sequence of line labels.
@@ -210,6 +211,6 @@ CenterAlg(pre, cen, suf, h) ==            \* after the fix: an empty buffer cont
 
 ApplyAlg(in, st) ==
     [i \in 1..Len(in) |-> IF IsNl(in[i]) THEN NlCell
-                           ELSE IF in[i].s # <<>> /\ in[i].s[1] = st THEN [in[i] EXCEPT !.r = TRUE]
+                           ELSE IF st \in Range(in[i].s) THEN [in[i] EXCEPT !.r = TRUE]
                            ELSE [in[i] EXCEPT !.s = <<st>> \o @, !.r = TRUE]]
 =============================================================================
